@@ -506,9 +506,9 @@ def fr5(ctx):
         ctx.missing('targets', 'no Corruption construction / Ok exit found in FrameReader bodies')
 
 
-@rule('FR6', ['C09'], floor=1, template='no-store-on-path')
+@rule('FR6', ['C09', 'C12', 'C08'], floor=1, template='no-store-on-path')
 def fr6(ctx):
-    """A CRC failure costs one frame: it does not quarantine the block, and it is reported as Corruption."""
+    """A CRC failure costs one frame: it does not quarantine the block, and it is reported as Corruption. Answering a checksum failure with the end-of-log signal instead (a 'torn write') also puts the writer in front of valid older frames, which later complete a batch cut by a crash (C12, C08)."""
     for b in fr_check_bodies(ctx):
         q = [p for (p, pl, rv) in stores_to(b, 'FrameReader', 'block_corrupted') if const_store_val(rv) != 0]
         for (_bi, _c, te, fe, cs) in b.switches_on_call(lambda c: c.path.endswith('Header::check')):
